@@ -9,6 +9,9 @@ use falcon::memory::MemoryPermissions as P;
 use serde_json::{json, Value};
 use std::collections::{BTreeMap, BTreeSet};
 
+#[path = "c19_link.rs"]
+mod c19_link;
+
 pub fn prop() -> Prop {
     Prop {
         id: "C19",
@@ -33,10 +36,15 @@ fn describe() -> Describe {
                x base {0, 0x10000, 0x7f0000000000}. Oracle = the abstract description: expected byte/permission/unmapped for every \
                address around every segment, architecture and endianness, the entry set; and the differential clause: everything \
                reported at base B equals the base-0 report + B (sections, function entries, symbols, program entry). \
-               The multi-object linker (ElfLinker) is not exercised.",
+               Linking (ElfLinker, EM_386): every topology of {main, libA.so, libB.so} in {main->A; main->A,B; main->A->B; \
+               main->A,B with A->B; main->B,A} x every assignment of {no relocation, R_386_RELATIVE, {R_386_GLOB_DAT, R_386_JMP_SLOT, \
+               R_386_32} x every symbol defined in the link} to the relocation slots of every object (1 slot per object in quick; 2 \
+               for main and libA in thorough); the objects are written to a scratch directory and linked; every relocated word \
+               must hold base(definer)+value (base(self)+addend for RELATIVE) and every other byte of the linked image must be \
+               the union of the objects' images at the bases the linker reports. A link that returns an error is counted, not judged.",
         assumptions: vec![
             "ELF writer in the harness (independent of goblin); dynamic symbols are published through a DT_HASH-sized .dynsym in an extra R segment which is part of the expected image".into(),
-            "relocation processing by ElfLinker (several objects on disk) is outside this check".into(),
+            "MIPS relocation processing (GOT rebasing, R_MIPS_REL32) by ElfLinker is outside this check; symbol names are unique per link (no interposition order is assumed)".into(),
         ],
         engine: "grid enumerator over abstract ELF images (16 processes)",
     }
@@ -563,9 +571,23 @@ fn run(ctx: &Ctx) -> Acc {
         let bases: Vec<u64> = if im.is64 { vec![0, 0x10000, 0x7f00_0000_0000] } else { vec![0, 0x10000, 0x4000_0000] };
         check(&mut acc, im, &bases);
     }
+    // linked objects (ElfLinker)
+    let dir = c19_link::scratch_dir(ctx);
+    let base = images(ctx.tier.thorough()).len() as u64;
+    for (n, sc) in c19_link::scenarios(ctx.tier.thorough()).iter().enumerate() {
+        if !ctx.mine(base + n as u64) {
+            continue;
+        }
+        ctx.trace(|| format!("link\t{}", c19_link::scenario_json(sc)));
+        c19_link::check(&mut acc, sc, &dir);
+    }
+    let _ = std::fs::remove_dir_all(&dir);
     if ctx.shard == 0 {
         if let Some(im) = images(false).get(7) {
             acc.sample(image_json(im));
+        }
+        if let Some(sc) = c19_link::scenarios(false).get(100) {
+            acc.sample(c19_link::scenario_json(sc));
         }
     }
     acc
@@ -573,6 +595,13 @@ fn run(ctx: &Ctx) -> Acc {
 
 fn replay(case: &Value) -> Acc {
     let mut acc = Acc::new();
+    if case.get("link").is_some() {
+        let dir = crate::report::verif_dir().join("target").join("tmp").join(format!("c19-link-replay-{}", std::process::id()));
+        let _ = std::fs::create_dir_all(&dir);
+        c19_link::check(&mut acc, &c19_link::scenario_parse(case), &dir);
+        let _ = std::fs::remove_dir_all(&dir);
+        return acc;
+    }
     let im = image_parse(case);
     let bases: Vec<u64> = if im.is64 { vec![0, 0x10000, 0x7f00_0000_0000] } else { vec![0, 0x10000, 0x4000_0000] };
     check(&mut acc, &im, &bases);
